@@ -98,6 +98,11 @@ ValidEM(em, h) == h \in Hashes /\ (ValidFor(em, h, TRUE) \/ ValidFor(em, h, FALS
 \* ---- chain, labels, verdict ----
 Rels == {"root", "otherca", "self"}
 Times == {"valid", "expired", "notyet"}
+\* forged twins: a device certificate with the SAME issuer name and serial number as a genuine (root-issued, valid) one
+\* that was attested successfully earlier on the same Attestor, but carrying another key and issued by another CA
+\* that merely bears the root's name / signed by its own key.  It does not chain to the pool.
+TwinRels == {"twin_otherca", "twin_self"}
+Chains == (Rels \X Times) \cup (TwinRels \X {"valid"})
 ChainOK(rel, time) == rel = "root" /\ time = "valid"
 Labels == 0..16       \* crypto/x509.SignatureAlgorithm: 0 unknown, 1 MD2-RSA, 2 MD5-RSA, 3..6 SHA1/256/384/512-RSA,
                       \* 7,8 DSA-SHA1/256, 9..12 ECDSA-SHA1/256/384/512, 13..15 RSA-PSS, 16 Ed25519
@@ -126,7 +131,7 @@ Design06(c) == [acc |-> Permitted(c), pan |-> FALSE]
 Strict06(c, r) == r.acc = Design06(c).acc /\ r.pan = FALSE
 
 \* every clause of the statement follows from acceptance
-Clauses(c) == /\ c.rel = "root" /\ c.time = "valid"
+Clauses(c) == /\ c.rel = "root" /\ c.time = "valid" /\ c.rel \notin TwinRels
               /\ c.kt = "rsa"
               /\ c.alg \notin {0, 1, 2, 13, 14, 15, 16}
               /\ c.em.shape = "full" /\ c.em.lead = "00" /\ c.em.bt = "01" /\ c.em.sep = "00"
@@ -136,20 +141,24 @@ Clauses(c) == /\ c.rel = "root" /\ c.time = "valid"
 Unique(em) == Cardinality({hn \in Layouts : ValidFor(em, hn[1], hn[2])}) <= 1
 
 \* ---- the enumerating state machine ----
-VARIABLES c, r
-vars == <<c, r>>
+VARIABLES c, r,
+          hist     \* what the long-lived object (C06: the Attestor, C16: the process-wide parser) has been used for before
+                   \* this call; the design never reads it: the verdict of a call is a function of the call alone
+vars == <<c, r, hist>>
 Case06(kt, alg, rel, time, sf, h0, n0, mut, em) ==
     [p |-> "C06", kt |-> kt, alg |-> alg, rel |-> rel, time |-> time, sf |-> sf,
      h0 |-> h0, n0 |-> n0,      \* the (hash, layout) the encoded message was built for before mutation
      mut |-> mut, em |-> em]
-Init06 == /\ \/ \E h \in AllH, n \in BOOLEAN, a \in Labels, rel \in Rels, t \in Times :
-                   c = Case06("rsa", a, rel, t, "canon", h, n, "none", GoodEM(h, n))
-             \/ \E kt \in KeyTypes06 \ {"rsa"}, a \in Labels, rel \in Rels, t \in Times, sf \in {"honest", "junk"} :
-                   c = Case06(kt, a, rel, t, sf, "none", FALSE, "none", NoEM)
+Init06 == /\ \/ \E h \in AllH, n \in BOOLEAN, a \in Labels, ch \in Chains :
+                   c = Case06("rsa", a, ch[1], ch[2], "canon", h, n, "none", GoodEM(h, n))
+             \/ \E kt \in KeyTypes06 \ {"rsa"}, a \in Labels, ch \in Chains, sf \in {"honest", "junk"} :
+                   c = Case06(kt, a, ch[1], ch[2], sf, "none", FALSE, "none", NoEM)
           /\ r = Design06(c)
-Mutable == c.mut = "none" /\ c.kt = "rsa" /\ c.h0 \in Hashes
+          /\ hist = IF c.rel \in TwinRels THEN "used" ELSE "fresh"   \* a twin presupposes the genuine one attested before
+Mutable == c.mut = "none" /\ c.kt = "rsa" /\ c.h0 \in Hashes /\ hist = "fresh"
 Put(name, em) == /\ c' = [c EXCEPT !.mut = name, !.em = em]
                  /\ r' = Design06(c')
+                 /\ UNCHANGED hist
 MutLead(v)   == Mutable /\ Put("lead", [c.em EXCEPT !.lead = v])
 MutBT(v)     == Mutable /\ Put("bt", [c.em EXCEPT !.bt = v])
 MutPSf(v)    == Mutable /\ Put("psf", [c.em EXCEPT !.psf = v])
@@ -162,12 +171,15 @@ MutDg(j, v)  == Mutable /\ j \in 1..HLen[c.h0] /\ Put("dg", [c.em EXCEPT !.dgj =
 Reshape(s)   == Mutable /\ s # "full" /\ Put("shape", [c.em EXCEPT !.shape = s])
 PfxOther(h, n) == Mutable /\ h # c.h0 /\ Put("pfxother", [c.em EXCEPT !.pfx = DI(h, n)])
 DgOther(h)   == Mutable /\ h # c.h0 /\ Put("dgother", [c.em EXCEPT !.dgh = h])
+\* the same call on an Attestor that has attested other certificates before: same verdict
+Use06 == c.mut = "none" /\ hist = "fresh" /\ hist' = "used" /\ UNCHANGED <<c, r>>
 Next06 == \/ \E v \in ByteClass : MutLead(v) \/ MutBT(v) \/ MutPSf(v) \/ MutPSm(v) \/ MutPSl(v) \/ MutSep(v)
           \/ \E j \in 1..19, v \in ByteClass : MutPfx(j, v)
           \/ \E j \in 1..64, v \in ByteClass : MutDg(j, v)
           \/ \E s \in Shapes : Reshape(s)
           \/ \E h \in AllH, n \in BOOLEAN : PfxOther(h, n)
           \/ \E h \in AllH : DgOther(h)
+          \/ Use06
 Spec06 == Init06 /\ [][Next06]_vars
 
 \* the property and the sanity theorems, model-checked on the full product
@@ -179,6 +191,8 @@ Inv06_Base == (c.mut = "none" /\ c.kt = "rsa") => (ValidFor(c.em, c.h0, c.n0) /\
 P_MutInvalid == [][(c'.em # c.em) => \A h \in AllH, n \in BOOLEAN : ~ValidFor(c'.em, h, n)]_vars
 \* and, conversely, a mutation operator that writes the octet already there changes nothing
 P_NoopSame == [][(c'.em = c.em) => r'.acc = r.acc]_vars
+\* history independence: the same call gets the same verdict whatever the Attestor did before
+P_Hist == [][(c' = c) => (r' = r)]_vars
 
 (***************************************************************************)
 (*                                C16                                      *)
@@ -264,7 +278,11 @@ Init16 == /\ \/ \E kt \in KeyTypes16 \ {"rsa-nonull"}, sa \in SigAlgs16 : c = [S
              \/ c = [Shape0 EXCEPT !.op = "pem"]
              \/ c = [Shape0 EXCEPT !.op = "modhex"]
           /\ r = Design16(c)
-Go(x) == c' = x /\ r' = Design16(x)
+          /\ hist = "fresh"
+Go(x) == hist = "fresh" /\ c' = x /\ r' = Design16(x) /\ UNCHANGED hist
+\* the same certificate parsed after an extension-rich one, after one without any extension, or while other
+\* goroutines are parsing: same result (the parser keeps nothing between calls)
+After(k) == c.op = "parse" /\ hist = "fresh" /\ hist' = k /\ UNCHANGED <<c, r>>
 AddExt(k)   == c.op = "parse" /\ c.tail = "clean" /\ k \notin c.exts /\ Go([c EXCEPT !.exts = @ \cup {k}])
 DropNull    == c.op = "parse" /\ c.tail = "clean" /\ c.kt = "rsa" /\ Go([c EXCEPT !.kt = "rsa-nonull"])
 Trail       == c.op = "parse" /\ c.tail = "clean" /\ Go([c EXCEPT !.tail = "trailing"])
@@ -287,6 +305,7 @@ Next16 == \/ \E k \in ExtKinds : AddExt(k)
           \/ \E t \in {"ws", "garbage"} : PemTrail(t)
           \/ MHPresent
           \/ \E b \in 0..255 : MHAppend(b)
+          \/ \E k \in {"after_rich", "after_bare", "concurrent"} : After(k)
 Spec16 == Init16 /\ [][Next16]_vars
 P_C16 == [](C16_Step(c, r))
 \* sanity: the three verdict classes partition the shapes; a lenient shape is one the standard parser refuses
